@@ -8,8 +8,19 @@
   and (b) evaluated by the driver on what the REAL code did (harness trace).
 -/
 import ControlModel.Model.CmdQueue
+import ControlModel.Model.CmdHandover
 
 namespace CmdQueue
+
+/-- Where a goroutine dump finds the consumer goroutine of a queue with respect
+    to a command `c` whose `Enqueue` has returned: `held` — blocked in the send on
+    `c`'s callback channel; `idle` — parked in its receive on the queue channel;
+    `passed` — already working on a command enqueued behind `c`. -/
+inductive Where where
+  | held
+  | idle
+  | passed
+deriving DecidableEq, Repr
 
 /-- The map entry for target `t` of command `c` is `t`'s own reply (addressed
     by command id AND sender), or an error response synthesised for this
@@ -62,6 +73,11 @@ inductive Ev where
   | ret (r : Resp) (early : Bool)
   /-- a value arrived on the callback channel of command `c` -/
   | done (c : Nat) (res : Result)
+  /-- the caller of command `c` starts to receive on `c`'s callback channel
+      (recorded BEFORE; a command without this event is listened to from the start) -/
+  | listen (c : Nat)
+  /-- a goroutine dump found the consumer goroutine of `c`'s queue there -/
+  | probe (c : Nat) (w : Where)
 deriving DecidableEq, Repr
 
 def isDone (c : Nat) : Ev → Bool
@@ -161,6 +177,67 @@ def donesOk (cmds : List Cmd) : List Ev → List Ev → Bool
      | none => false) && donesOk cmds (before ++ [.done ci res]) rest
   | before, e :: rest => donesOk cmds (before ++ [e]) rest
 
+/-! ### the hand-over of the answer is a rendezvous that waits for the caller -/
+
+def isListen (c : Nat) : Ev → Bool
+  | .listen c' => c' == c
+  | _ => false
+
+/-- Evidence that command `c` has been dequeued: the send function was entered
+    for it, or the consumer goroutine was seen at (or past) its hand-over. -/
+def dequeues (c : Nat) : Ev → Bool
+  | .send c' _ _ _ _ => c' == c
+  | .probe c' _ => c' == c
+  | _ => false
+
+/-- The commands whose caller starts to listen in the course of the trace. -/
+def lateSet (evs : List Ev) : List Nat :=
+  evs.filterMap fun
+    | .listen c => some c
+    | _ => none
+
+/-- The queue command `c` was enqueued on. -/
+def queueOf (qs : List Nat) (c : Nat) : Nat := (qs[c]?).getD 0
+
+/-- One event, given everything recorded before it:
+    * a caller receives an answer only after it started to listen;
+    * wherever the consumer goroutine is found with respect to `c`, either it is
+      blocked handing `c`'s answer over (`held`) or `c`'s caller HAS its answer:
+      a consumer that is idle or busy with a later command while nothing arrived
+      on `c`'s callback channel has dropped the answer;
+    * while a command `c` has been dequeued and its caller has not even started
+      to listen, the send function is entered for no other command of `c`'s queue:
+      the queue waits. -/
+def handoverStep (qs : List Nat) (late : List Nat) (before : List Ev) : Ev → Bool
+  | .done c _ => !late.contains c || before.any (isListen c)
+  | .probe c w => w == .held || before.any (isDone c)
+  | .send c' _ _ _ _ =>
+    (List.range qs.length).all fun c =>
+      c == c' || queueOf qs c != queueOf qs c' || !late.contains c || before.any (isListen c) ||
+        !before.any (dequeues c)
+  | _ => true
+
+def handoverFrom (qs : List Nat) (late : List Nat) : List Ev → List Ev → Bool
+  | _, [] => true
+  | before, e :: rest => handoverStep qs late before e && handoverFrom qs late (before ++ [e]) rest
+
+def handoverOk (qs : List Nat) (evs : List Ev) : Bool := handoverFrom qs (lateSet evs) [] evs
+
+/-- What an observer of a MODEL execution records for one step (the send events
+    as in `emitSend`; `listen`; the rendezvous as the arrival of the offered value;
+    a probe, once `commit` has returned, as `held` until the answer is taken). -/
+def emitQ (cmds : List Cmd) (s : QState) : QStep → Option Ev
+  | .base st => emitSend cmds s.base st
+  | .listen c => some (.listen c)
+  | .take c =>
+    if s.listening c = true ∧ s.taken c = false then (offered s c).map (.done c) else none
+  | .probe c =>
+    if s.base.completed c = true then some (.probe c (if s.taken c = true then .passed else .held)) else none
+
+def qtrace (cmds : List Cmd) (qof : Nat → Nat) : QState → List QStep → List Ev
+  | _, [] => []
+  | s, st :: rest => (emitQ cmds s st).toList ++ qtrace cmds qof (qstep cmds qof s st) rest
+
 /-- Every command of the scenario (all are enqueued and awaited by the harness)
     completed exactly once. -/
 def onceOk (n : Nat) (evs : List Ev) : Bool :=
@@ -171,9 +248,13 @@ def onceOk (n : Nat) (evs : List Ev) : Bool :=
 def finalOk (evs : List Ev) (final : List (Nat × Result)) : Bool :=
   final.all (fun (c, res) => evs.contains (.done c res))
 
-/-- Spec.C12 on one observed scenario. Vacuous outside the property's domain
-    (ids and per-command targets distinct). -/
-def Spec (cmds : List Cmd) (evs : List Ev) (final : List (Nat × Result)) : Bool :=
-  !wfCfg cmds || (onceOk cmds.length evs && sendsOk cmds evs && donesOk cmds [] evs && finalOk evs final)
+/-- Spec.C12 on one observed scenario (`qs` = the queue each command was enqueued
+    on). Vacuous outside the property's domain (ids and per-command targets
+    distinct). Every command of a scenario is enqueued and its caller listens
+    sooner or later: `onceOk` demands exactly one answer for each, `handoverOk`
+    that the queue waited for the caller meanwhile. -/
+def Spec (cmds : List Cmd) (qs : List Nat) (evs : List Ev) (final : List (Nat × Result)) : Bool :=
+  !wfCfg cmds || (onceOk cmds.length evs && sendsOk cmds evs && donesOk cmds [] evs && finalOk evs final &&
+    handoverOk qs evs)
 
 end CmdQueue
